@@ -893,5 +893,34 @@ func (fc *FnCtx) selectInstr(x *ssa.Select) {
 	fc.syncPoint("select")
 }
 
-// chanEvent is a hook for ghost event sequences on channels (filled in by contracts).
-func (fc *FnCtx) chanEvent(ch ssa.Value, v Val, ins ssa.Instruction) {}
+// chanEvent: a send on a channel that was loaded from a field declared `changhost` appends the
+// sent value to the ghost sequence.
+func (fc *FnCtx) chanEvent(ch ssa.Value, v Val, ins ssa.Instruction) {
+	g := fc.g
+	ld, ok := ch.(*ssa.UnOp)
+	if !ok {
+		return
+	}
+	fa, ok := ld.X.(*ssa.FieldAddr)
+	if !ok {
+		return
+	}
+	T := fa.X.Type().Underlying().(*types.Pointer).Elem()
+	n, ok := T.(*types.Named)
+	if !ok || n.Obj().Pkg() == nil {
+		return
+	}
+	st := T.Underlying().(*types.Struct)
+	gname, ok := g.cs.ChanGhosts[n.Obj().Pkg().Path()+"::"+n.Obj().Name()+"."+st.Field(fa.Field).Name()]
+	if !ok {
+		return
+	}
+	gv, ok := g.cs.Ghosts[gname]
+	if !ok {
+		cxFail("changhost: unknown ghost variable %s", gname)
+	}
+	env := fc.envAt(fc.cur, nil)
+	cur := env.ghostVal(gv)
+	mk, ln, ar := seqFns(cur.gs)
+	g.set(fc.cur, "G|"+gname, fmt.Sprintf("(%s (+ (%s %s) 1) (store (%s %s) (%s %s) %s))", mk, ln, cur.t, ar, cur.t, ln, cur.t, v.t))
+}
